@@ -113,6 +113,9 @@ def _train_locals(f: FuncInfo, tps: Set[str]) -> Set[str]:
                     out.add(n.target.elts[1].id)
             elif isinstance(it, ast.Name) and it.id in tps and isinstance(n.target, ast.Name):
                 out.add(n.target.id)
+        if isinstance(n, ast.Assign) and len(n.targets) == 1 and isinstance(n.targets[0], ast.Name) and \
+                isinstance(n.value, ast.Subscript) and isinstance(n.value.value, ast.Name) and n.value.value.id in tps:
+            out.add(n.targets[0].id)       # st_i = spike_trains[...]
     return out
 
 
@@ -262,12 +265,30 @@ def _norm_arg(a: ast.AST, ren: Dict[str, str]) -> str:
     return ast.unparse(a2)
 
 
+def _inline_train_locals(f: FuncInfo, a: ast.AST) -> ast.AST:
+    """replace locals bound once to `<list>[...]` by that expression (st_i = spike_trains[indices[i]])"""
+    defs: Dict[str, ast.AST] = {}
+    for n in ast.walk(f.node):
+        if isinstance(n, ast.Assign) and len(n.targets) == 1 and isinstance(n.targets[0], ast.Name) and \
+                isinstance(n.value, ast.Subscript) and isinstance(n.value.value, ast.Name):
+            defs[n.targets[0].id] = n.value
+
+    class R(ast.NodeTransformer):
+        def visit_Name(self, n):
+            if n.id in defs and isinstance(n.ctx, ast.Load):
+                return ast.parse(ast.unparse(defs[n.id]), mode='eval').body
+            return n
+    return R().visit(ast.parse(ast.unparse(a), mode='eval').body)
+
+
 def _norm_pairwise(args: List[str]) -> List[str]:
-    """list-based wrappers address the two trains of a pair as L[a], L[b]: rename to T1, T2 in order of appearance"""
+    """list-based wrappers address the two trains of a pair as L[a], L[b] (or L[idx[a]], L[idx[b]]): rename to T1, T2
+    in order of appearance"""
     import re
+    pat = re.compile(r"T1\[((?:\w+\[)?\w+\]?)\]")
     order: List[str] = []
     for a in args:
-        for m in re.finditer(r"T1\[(\w+)\]", a):
+        for m in pat.finditer(a):
             if m.group(1) not in order:
                 order.append(m.group(1))
     out = []
@@ -300,8 +321,8 @@ def r05_1_route_identity(ctx, rule: str = 'R05.1') -> List[Ob]:
             wt = [a.arg for a in fam.wrapper.node.args.args if a.arg in wm.train_params.get(fam.wrapper.qual, set())]
             ren_c = {n: f"T{k + 1}" for k, n in enumerate(tps_list)}
             ren_p = {n: f"T{k + 1}" for k, n in enumerate(wt)}
-            ac = _norm_pairwise([_norm_arg(a, ren_c) for a in ccalls[0].args])
-            ap = _norm_pairwise([_norm_arg(a, ren_p) for a in pcalls[0].args])
+            ac = _norm_pairwise([_norm_arg(_inline_train_locals(f, a), ren_c) for a in ccalls[0].args])
+            ap = _norm_pairwise([_norm_arg(_inline_train_locals(fam.wrapper, a), ren_p) for a in pcalls[0].args])
             if ac == ap:
                 obs.append(ok(rule, t, f.loc(ccalls[0]), construct=f"{_fn(f)}::compiled-call", detail=', '.join(ac)))
             else:
